@@ -631,8 +631,11 @@ Lemma recovery_crash_nonvacuous :
 Proof.
   split; [|split].
   - split; [reflexivity|]. intros x. destruct (N.eqb_spec x 0) as [->|E].
-    + vm_compute. split; [now left|]. right. eexists. eexists. split; [reflexivity|]. split; [reflexivity|].
-      repeat split; auto. intros s v H. discriminate.
+    + assert (B0 : blobs ex_f 0 = (None, Some (mkbdir (Some []) (Some []) false [] []))) by (vm_compute; reflexivity).
+      rewrite B0. unfold ex_f'. cbn [blobs]. rewrite N.eqb_refl. cbn [fst snd rec_comp isSome cfg_w c_ri andb rec_inc d_data d_sizef undec].
+      split; [now left|]. right. eexists. eexists. split; [reflexivity|]. split; [reflexivity|].
+      unfold dsub. cbn [d_data d_sizef d_ban d_md]. split; [now right|]. split; [now left|]. split; [discriminate|].
+      intros s v H. discriminate.
     + assert (B : blobs ex_f x = (None, None)).
       { unfold ex_f, crash. rewrite (blobs_exec_other 0); [reflexivity| |exact E].
         eapply ckeys_prefix; [apply prefix_firstn|]. apply (step_ckeys (cfg_w true) init (Create 0 5)). }
